@@ -379,38 +379,51 @@ func NewWorld() *World {
 	apphash := []byte(sym.String("apphash"))
 	hdr := tmproto.Header{Height: h, Time: sym.Time(sym.Int64("blocktime")), AppHash: apphash, ChainID: ChainID}
 	w.Ctx = sdk.Context{}.WithBlockHeader(hdr).WithChainID(ChainID).WithLogger(NopLogger{}).WithEventManager(sdk.NewEventManager())
-
-	cdc := SymCodec{}
 	w.Bank = NewSymBank()
 	w.Staking = NewSymStaking(WorldDenom)
-
-	kSao := sdk.NewKVStoreKey(saotypes.StoreKey)
-	kNode := sdk.NewKVStoreKey(nodetypes.StoreKey)
-	kOrder := sdk.NewKVStoreKey(ordertypes.StoreKey)
-	kModel := sdk.NewKVStoreKey(modeltypes.StoreKey)
-	kMarket := sdk.NewKVStoreKey(markettypes.StoreKey)
-	kDid := sdk.NewKVStoreKey(didtypes.StoreKey)
-	var nilKey *storetypes.KVStoreKey // keys[...MemStoreKey] is a missing map entry in app.go: typed nil pointer
-
 	declareSchemas()
 	declareInvariants()
+	w.wire("")
+	return w
+}
+
+// NewEmptyTwin: a second family of module stores that is empty (a freshly initialised chain), sharing the
+// context, bank and staking models of w. Genesis import writes into it.
+func NewEmptyTwin(w *World) *World {
+	t := &World{Ctx: w.Ctx, Bank: w.Bank, Staking: w.Staking}
+	for _, name := range []string{saotypes.StoreKey, nodetypes.StoreKey, ordertypes.StoreKey, modeltypes.StoreKey, markettypes.StoreKey, didtypes.StoreKey} {
+		sym.DeclareEmptyStore(name + "2")
+	}
+	declareSchemasFor("2")
+	t.wire("2")
+	return t
+}
+
+func (w *World) wire(sfx string) {
+	cdc := SymCodec{}
+	kSao := sdk.NewKVStoreKey(saotypes.StoreKey + sfx)
+	kNode := sdk.NewKVStoreKey(nodetypes.StoreKey + sfx)
+	kOrder := sdk.NewKVStoreKey(ordertypes.StoreKey + sfx)
+	kModel := sdk.NewKVStoreKey(modeltypes.StoreKey + sfx)
+	kMarket := sdk.NewKVStoreKey(markettypes.StoreKey + sfx)
+	kDid := sdk.NewKVStoreKey(didtypes.StoreKey + sfx)
+	var nilKey *storetypes.KVStoreKey // keys[...MemStoreKey] is a missing map entry in app.go: typed nil pointer
 
 	// app.go:446 — first NodeKeeper: OrderKeeper and MarketKeeper are still zero values
 	var zeroOrder orderkeeper.Keeper
 	var zeroMarket marketkeeper.Keeper
-	w.HookNode = *nodekeeper.NewKeeper(w.Acct, w.Bank, zeroOrder, w.Staking, zeroMarket, cdc, kNode, nilKey, kOrder, sym.Subspace(nodetypes.ModuleName, &nodetypes.Params{}))
+	w.HookNode = *nodekeeper.NewKeeper(w.Acct, w.Bank, zeroOrder, w.Staking, zeroMarket, cdc, kNode, nilKey, kOrder, sym.Subspace(nodetypes.ModuleName+sfx, &nodetypes.Params{}))
 
-	w.Did = *didkeeper.NewKeeper(cdc, kDid, nilKey, sym.Subspace(didtypes.ModuleName, &didtypes.Params{}), w.Acct, w.Bank)
-	w.Order = *orderkeeper.NewKeeper(w.Acct, w.Bank, w.Did, cdc, kOrder, nilKey, kModel, kMarket, sym.Subspace(ordertypes.ModuleName, &ordertypes.Params{}))
-	w.Market = *marketkeeper.NewKeeper(w.Bank, w.Order, cdc, kMarket, kOrder, nilKey, sym.Subspace(markettypes.ModuleName, &markettypes.Params{}))
-	w.Node = *nodekeeper.NewKeeper(w.Acct, w.Bank, w.Order, w.Staking, w.Market, cdc, kNode, nilKey, kOrder, sym.Subspace(nodetypes.ModuleName, &nodetypes.Params{}))
-	w.Model = *modelkeeper.NewKeeper(w.Acct, w.Order, w.Did, w.Bank, w.Node, w.Market, cdc, kModel, kOrder, nilKey, sym.Subspace(modeltypes.ModuleName, &modeltypes.Params{}))
-	w.Sao = *saokeeper.NewKeeper(w.Acct, w.Bank, w.Node, w.Order, w.Model, w.Did, w.Market, w.Staking, cdc, kSao, kOrder, nilKey, sym.Subspace(saotypes.ModuleName, &saotypes.Params{}))
+	w.Did = *didkeeper.NewKeeper(cdc, kDid, nilKey, sym.Subspace(didtypes.ModuleName+sfx, &didtypes.Params{}), w.Acct, w.Bank)
+	w.Order = *orderkeeper.NewKeeper(w.Acct, w.Bank, w.Did, cdc, kOrder, nilKey, kModel, kMarket, sym.Subspace(ordertypes.ModuleName+sfx, &ordertypes.Params{}))
+	w.Market = *marketkeeper.NewKeeper(w.Bank, w.Order, cdc, kMarket, kOrder, nilKey, sym.Subspace(markettypes.ModuleName+sfx, &markettypes.Params{}))
+	w.Node = *nodekeeper.NewKeeper(w.Acct, w.Bank, w.Order, w.Staking, w.Market, cdc, kNode, nilKey, kOrder, sym.Subspace(nodetypes.ModuleName+sfx, &nodetypes.Params{}))
+	w.Model = *modelkeeper.NewKeeper(w.Acct, w.Order, w.Did, w.Bank, w.Node, w.Market, cdc, kModel, kOrder, nilKey, sym.Subspace(modeltypes.ModuleName+sfx, &modeltypes.Params{}))
+	w.Sao = *saokeeper.NewKeeper(w.Acct, w.Bank, w.Node, w.Order, w.Model, w.Did, w.Market, w.Staking, cdc, kSao, kOrder, nilKey, sym.Subspace(saotypes.ModuleName+sfx, &saotypes.Params{}))
 
 	w.SaoMsg = saokeeper.NewMsgServerImpl(w.Sao)
 	w.NodeMsg = nodekeeper.NewMsgServerImpl(w.Node)
 	w.DidMsg = didkeeper.NewMsgServerImpl(w.Did)
-	return w
 }
 
 func (w *World) TransferCount() int              { return len(w.Bank.Log) }
